@@ -125,7 +125,7 @@ def _role(p, c):
     if isinstance(p, TYPE_PARAMS):
         return 'bound'
     if isinstance(p, COMPS):
-        return 'gen' if isinstance(c, ast.comprehension) else 'elt'
+        return ('gen0' if p.generators and c is p.generators[0] else 'gen') if isinstance(c, ast.comprehension) else 'elt'
     if isinstance(p, ast.comprehension):
         return 'target' if c is p.target else 'iter' if c is p.iter else 'cond'
     if isinstance(p, ast.NamedExpr):
